@@ -278,6 +278,46 @@ var scenarioTable = map[string]func(s *sc){
 		s.flush(func(p pending, k string) bool { return k == "C" && p.to == 2 })
 		s.flush(any)
 	},
+	// the Byzantine leader n2 of view 2 fabricates a "proof of view 2" for block A out of its own PREPREPARE(2, A) and the
+	// genuine PREPAREs n1 and n3 signed for A in view 0 (where nobody prepared).  Meanwhile B was prepared in view 1 and
+	// committed by n0.  The honest leader n3 of view 3 must not count that vote: it would outrank the real lock on B.
+	"fork_via_proof_with_prepares_of_older_view": func(s *sc) {
+		s.startNodes()
+		s.flush(kinds("PP"))
+		var a *vBlock
+		for _, pp := range s.adv.ppSeen {
+			if vb, ok := pp.Block().(*vBlock); ok && pp.View() == 0 {
+				a = vb
+			}
+		}
+		s.dropAll(any) // the PREPAREs for A are lost (the adversary has seen them)
+		for _, i := range []int{0, 1, 3} {
+			s.timeout(i)
+		}
+		s.flush(kinds("VC"))
+		s.flush(kinds("NV"))
+		s.flush(kinds("P"))
+		s.flush(func(p pending, k string) bool { return k == "C" && p.to == 0 }) // n0 commits B
+		s.dropAll(kinds("C"))
+		for _, v := range []int{2, 3} {
+			_ = v
+			s.timeout(1)
+			s.timeout(3)
+			if v == 2 {
+				s.dropAll(kinds("VC")) // the leader of view 2 is Byzantine and stays silent
+			}
+		}
+		s.flush(kinds("VC"))
+		if a == nil {
+			return
+		}
+		pr := proofD{present: true, pp: ref(protocol.LEAN_HELIX_PREPREPARE, 1, 2, a), ppBy: s.cl.ids[2], p: ref(protocol.LEAN_HELIX_PREPARE, 1, 0, a),
+			pBy: []primitives.MemberId{s.cl.ids[1], s.cl.ids[3]}, pModes: []string{"", ""}}
+		s.inject(3, s.adv.mkVC(voteD{ht: protocol.LEAN_HELIX_VIEW_CHANGE, inst: clusterInstance, h: 1, v: 3, sender: s.cl.ids[2], proof: pr}, a), "vc_proof_prepares_of_older_view")
+		s.flush(kinds("NV"))
+		s.byzFollows(2, 3)
+		s.flush(any)
+	},
 	// H6: genuine locked votes reach the (unlocked) honest leader of view 2 with their blocks stripped off
 	"vote_with_proof_but_block_removed": func(s *sc) {
 		s.startNodes()
@@ -345,6 +385,50 @@ var scenarioTable = map[string]func(s *sc){
 		}
 		z := s.adv.newBody(s.run, 1, false)
 		s.inject(1, s.adv.mkVC(voteD{ht: protocol.LEAN_HELIX_VIEW_CHANGE, inst: clusterInstance, h: 1, v: 1, sender: s.cl.ids[0]}, z), "vc_no_proof_with_block")
+		s.flush(any)
+	},
+	// weights 1,4,3,2: the leader n1 of view 1 (4) and the Byzantine n2 (3) alone hold quorum weight 7.  n2 votes with a
+	// block attached (one every consumer would reject) and no proof; n1 must not be elected by it, let alone re-propose and
+	// commit that block, which no correct node ever validated.
+	"heavy_pair_vote_with_unvalidated_block_but_no_proof": func(s *sc) {
+		s.startNodes()
+		s.dropAll(any)
+		s.timeout(1)
+		x := s.adv.newBody(s.run, 1, true)
+		s.inject(1, s.adv.mkVC(voteD{ht: protocol.LEAN_HELIX_VIEW_CHANGE, inst: clusterInstance, h: 1, v: 1, sender: s.cl.ids[2]}, x), "vc_no_proof_with_block")
+		// the Byzantine member follows whatever hash n1 signed in its proposal (if it made one)
+		for _, pp := range s.adv.ppSeen {
+			if pp.View() == 1 && pp.SenderMemberId().Equal(s.cl.ids[1]) {
+				hash := append(primitives.BlockHash{}, pp.Content().SignedHeader().BlockHash()...)
+				s.dropAll(kinds("NV"))
+				s.inject(1, s.adv.mkP(refD{ht: protocol.LEAN_HELIX_PREPARE, inst: clusterInstance, h: 1, v: 1, hash: hash}, s.cl.ids[2], ""), "p_byz_or_outsider")
+				s.dropAll(kinds("C"))
+				s.inject(1, s.adv.mkC(refD{ht: protocol.LEAN_HELIX_COMMIT, inst: clusterInstance, h: 1, v: 1, hash: hash}, s.cl.ids[2], "", ""), "c_byz_or_outsider")
+				break
+			}
+		}
+		s.flush(any)
+	},
+	// the Byzantine leader of view 1 equivocates: a valid NEW_VIEW proposing A to n0, one proposing B to n2 and n3.
+	// n0 then receives the PREPAREs n2 and n3 honestly sent for B: it holds no proposal for B and must not COMMIT B
+	"equivocating_new_view_then_prepares_for_the_other_block": func(s *sc) {
+		s.startNodes()
+		s.dropAll(any)
+		for _, i := range []int{0, 2, 3} {
+			s.timeout(i)
+		}
+		votes := append(s.genuineVotesFor(1, 1), s.byzVote(1, 1, 1))
+		s.dropAll(kinds("VC"))
+		a, b := s.adv.newBody(s.run, 1, false), s.adv.newBody(s.run, 1, false)
+		for _, t := range []struct {
+			to  int
+			blk *vBlock
+		}{{0, a}, {2, b}, {3, b}} {
+			d := nvD{inst: clusterInstance, h: 1, v: 1, sender: s.cl.ids[1], votes: votes, pp: ref(protocol.LEAN_HELIX_PREPREPARE, 1, 1, t.blk), ppBy: s.cl.ids[1]}
+			s.inject(t.to, s.adv.mkNV(d, t.blk), "nv_equivocation")
+		}
+		s.flush(kinds("P"))
+		s.flush(func(p pending, k string) bool { return k == "P" }) // duplicates change nothing
 		s.flush(any)
 	},
 	// honest lock carried through two view changes: leader of view 1 Byzantine and silent, leader of view 2 honest
@@ -713,8 +797,17 @@ func scenarioByz(name string) []int {
 		return []int{0}
 	case "lagging_node_drains_cached_height":
 		return nil
+	case "fork_via_proof_with_prepares_of_older_view", "heavy_pair_vote_with_unvalidated_block_but_no_proof":
+		return []int{2}
 	}
 	return []int{1}
+}
+
+func scenarioWeights(name string) []uint64 {
+	if name == "heavy_pair_vote_with_unvalidated_block_but_no_proof" {
+		return []uint64{1, 4, 3, 2}
+	}
+	return []uint64{1, 1, 1, 1}
 }
 
 func scenarioNames() []string {
@@ -746,7 +839,7 @@ func cmdScenarios(args []string) int {
 			continue
 		}
 		byz := scenarioByz(name)
-		cl := newCluster([]uint64{1, 1, 1, 1}, byz, 1, false)
+		cl := newCluster(scenarioWeights(name), byz, 1, false)
 		r := &run{cl: cl, adv: newAdversary(cl), rnd: newRand(int64(i)), out: out, chain: map[uint64]commitRec{}, maxH: 2, stats: stats, tmpl: tmpl}
 		r.label = name
 		r.emitInit(i)
